@@ -86,6 +86,8 @@ pub struct Sys {
     query_open: bool,
     max_callers: usize,
     terminated_once: bool,
+    /// callers whose outcome has been judged for the clauses that look at what had been delivered *when they were answered*
+    judged: Vec<bool>,
 }
 
 fn peer(p: usize) -> PeerId {
@@ -95,7 +97,7 @@ fn peer(p: usize) -> PeerId {
 impl Sys {
     fn new(menu: Arc<Menu>, max_callers: usize) -> Sys {
         let (rig, uses) = POOL.with(|p| p.borrow_mut().pop()).unwrap_or_else(|| (DriverRig::new_client(1), 0));
-        Sys { rig: std::mem::ManuallyDrop::new(rig), uses, menu, callers: vec![], query_replies: vec![], caller_query: vec![], query_open: false, max_callers, terminated_once: false }
+        Sys { rig: std::mem::ManuallyDrop::new(rig), uses, menu, callers: vec![], query_replies: vec![], caller_query: vec![], query_open: false, max_callers, terminated_once: false, judged: vec![] }
     }
     fn open_queries(&self) -> Vec<QueryId> {
         let open: Vec<QueryId> = self.rig.driver.verif_pending_get_record().into_iter().filter(|(_, k, _, _)| *k == self.menu.key).map(|(id, _, _, _)| id).collect();
@@ -263,6 +265,7 @@ impl System for Sys {
                     }
                 }
                 self.callers.push((*cfg, CallerState::Waiting(rx)));
+                self.judged.push(false);
                 self.query_open = true;
             }
             Act::Found { p, v } => {
@@ -329,6 +332,7 @@ impl System for Sys {
         self.query_open = now_open;
         let _ = before_pending;
         // judge every Ok outcome against the caller's own configuration
+        let newly_got: Vec<usize> = self.callers.iter().enumerate().filter(|(i, (_, st))| matches!(st, CallerState::Got(_)) && !self.judged[*i]).map(|(i, _)| i).collect();
         for (i, (cfg, st)) in self.callers.iter().enumerate() {
             let CallerState::Got(out) = st else { continue };
             let resp = self.responders(self.caller_query[i]);
@@ -357,6 +361,15 @@ impl System for Sys {
                 }
                 if all_versions.len() > 1 && !self.menu.mergeable && agree < quorum_value(q) {
                     fails.push(Fail::new("no-arbitrary-pick", "plain", format!("caller {i} got Ok(v{v}) while several versions were delivered and its quorum was not met")));
+                }
+                // differing content had been returned when this caller was answered: it must get the full set of versions
+                // (or the merge), not one of them — judged once, at the step in which the caller is answered
+                if !self.judged[i] && all_versions.len() > 1 {
+                    fails.push(Fail::new(
+                        "no-arbitrary-pick",
+                        "single-version-although-others-were-returned",
+                        format!("caller {i} got Ok(v{v}) although the peers had returned the differing versions {all_versions:?} to its query"),
+                    ));
                 }
             } else if out.starts_with("Ok(merge") {
                 if !self.menu.mergeable {
@@ -388,6 +401,9 @@ impl System for Sys {
                     fails.push(Fail::new("split-carries-all-versions", "plain", format!("caller {i} got {out}, delivered so far: {want:?}")));
                 }
             }
+        }
+        for i in newly_got {
+            self.judged[i] = true;
         }
     }
 
